@@ -173,11 +173,16 @@ def build(ck, bft, N, src, obs=None, grid=None):
     gaps = z3.And(*[z3.Implies(z3.And(valid[i], valid[j]), z3.Or(z3.UGE(ms[i], ms[j] + 10), z3.UGE(ms[j], ms[i] + 10)))
                     for i in range(N) for j in range(i)]) if N > 1 else z3.BoolVal(True)
     unanimous = z3.And(*[z3.Implies(valid[i], z3.And(confA[i], trusted[i])) for i in range(N)])
-    G["complete/unanimous_trusted_spread_distinct_is_accepted"] = z3.Implies(
-        z3.And(enough, z3.Not(cand_low), unanimous, z3.UGE(regions, cfg["min_regions"]), gaps, z3.fpGT(cfg["min_witness_trust"], fpv(0.0))), A["valid"])
+    if not bft or N <= COMPLETE_BFT_MAX:
+        # BFT mode sorts the latencies for the collusion heuristic: with 6 or 7 witnesses no solver answers within the cap (outside the claim, not failed)
+        G["complete/unanimous_trusted_spread_distinct_is_accepted"] = z3.Implies(
+            z3.And(enough, z3.Not(cand_low), unanimous, z3.UGE(regions, cfg["min_regions"]), gaps, z3.fpGT(cfg["min_witness_trust"], fpv(0.0))), A["valid"])
     G["regions/reported_count_is_number_of_distinct_confirming_regions"] = z3.Implies(z3.And(enough, z3.Not(cand_low)), A["regions"] == regions)
     return {"eng": eng, "hyps": hyps, "goals": {g: z3.Implies(pcA, f) for g, f in G.items()},
             "reach": {"reach_valid": z3.And(pcA, A["valid"]), "reach_invalid": z3.And(pcA, enough, z3.Not(cand_low), z3.Not(A["valid"]))}}
+
+
+COMPLETE_BFT_MAX = 5
 
 
 def register(ck, bft, N):
@@ -207,7 +212,7 @@ def run(tier):
     ck.out.bounds = [f"witness sets of every size in {sizes} (one obligation set per size); every witness: confirms bool, trust None or (BFT mode) any finite f64 in [0,1] / (normal mode) one of {{0.1,0.29,0.3,0.9}} (the property's grid), region None or one of 5 ids, latency any whole number of ms < 2^20",
                      "config symbolic: min_peers 1..n+1, thresholds any f64 in (0,1], min_witness_trust any f64 in [0,1], min_regions 0..4; candidate trust None or f64 in [0,1]",
                      "both modes (attack/BFT and normal); loops unrolled n+2 with unwinding assertions"]
-    ck.out.outside = [f"witness sets larger than {sizes[-1]}", f"normal-mode monotonicity for more than {MONO_NORMAL_MAX} witnesses (two different f64 sums; solver cap)", "validate()/validate_trust_only cache paths (time-based HashMap cache)", "NaN / out-of-range trust values",
+    ck.out.outside = [f"witness sets larger than {sizes[-1]}", f"normal-mode monotonicity for more than {MONO_NORMAL_MAX} witnesses (two different f64 sums; solver cap)", f"BFT-mode completeness for more than {COMPLETE_BFT_MAX} witnesses (sorted latencies; solver cap)", "validate()/validate_trust_only cache paths (time-based HashMap cache)", "NaN / out-of-range trust values",
                       "enforcement mode (only read by validate(), not by validate_membership)"]
     ck.out.assumptions = ["single-threaded execution (AtomicBool attack flag read once)", "f liars bound assumes bft_threshold >= 0.34"]
     ck.out.trusted.append("z3 4.8.12 / z3 5.1 / cvc5 1.0 portfolio")
